@@ -1140,6 +1140,8 @@ func run(c *hx.Ctx) error {
 
 	// ---- name collisions across the files of one build (collide.go): the two deterministic matrices
 	lexicalFamily(c)
+	shadowFamily(c)
+	selectorFamily(c)
 	csets, clabels := collisionSets()
 	for i, set := range csets {
 		res.Hist("collision-set")
